@@ -77,7 +77,7 @@ let eval_det (args : string list) : string =
     let ncalls () = List.length !s.calls in
     (* the partition reader (fetcher 0) delivers one batch of N messages *)
     let feed () =
-      go [LFDial (n 0, DOk); LFOffsets (n 0, DOk); LFFetch (n 0)];
+      go [LFDial (n 0, DOk); LFLookup (n 0, DOk); LFOffsets (n 0, DOk); LFFetch (n 0)];
       if nn > 0 then (go [LFResp (n 0, FData (n nn))]; go (rep nn (LFPush (n 0))); go [LFBatchEnd (n 0, false)])
       else go [LFResp (n 0, FAgain)] in
     let fetch_one () =
